@@ -149,6 +149,16 @@ type FuncSpec struct {
 	External  bool
 	Opts      map[string]string
 	DynCalls  map[string]string // variable name -> "pure" | "noeffect": how calls through that func variable are treated
+	Reenter   []*Reenter        // interference: what code reached through the named callees may do to this unit's state
+}
+
+// Reenter is a rely clause of a unit: "reenter f, g modifies locs". Calls to f or g made by the unit may run code
+// (listeners, callbacks, another goroutine woken by the call) that writes the listed locations; they are forgotten after
+// each such call, on top of what the callee's own contract says.
+type Reenter struct {
+	Callees []string
+	Mods    []Expr
+	Pos     Pos
 }
 
 // SpecFunc is a mathematical function usable in expressions.
